@@ -89,14 +89,16 @@ def gen_points(rng, m, ant, n):
     ext = float(np.max(np.linalg.norm(pts0 - c, axis=1)))
     out = []
     tries = 0
+    # "one segment length": the longest segment of the structure (wires of one antenna differ by up to 1.4)
+    segmax = max(float(sg.seg_len) for g in m.geo for sg in g.segments)
     while len(out) < n and tries < 200:
         tries += 1
         d = np.array([rng.gauss(0, 1) for _ in range(3)])
         d /= np.linalg.norm(d)
-        o = c + d * (ext * rng.uniform(0.1, 1.6) + ant['seg'] * rng.uniform(1, 4))
+        o = c + d * (ext * rng.uniform(0.1, 1.6) + segmax * rng.uniform(1, 4))
         if ant['ground']:
-            o[2] = abs(o[2]) + 0.2 * ant['seg']
-        if min_distance(m, o, ant['ground']) >= 1.0 * ant['seg'] * 1.05:
+            o[2] = abs(o[2]) + 0.2 * segmax
+        if min_distance(m, o, ant['ground']) >= segmax * 1.05:
             out.append([float(x) for x in o])
     return out
 
